@@ -40,10 +40,19 @@ def _fit_job(cases):
         dfn = [[v / 1000.0 for v in p] for p in tpl["pts"]]                            # template atoms
         atom = [v / 1000.0 for v in tpl["atom"]]
         try:
+            import copy
+            keep = copy.deepcopy((ref, dfn, atom))
             res = quatfit.find_coordinates(len(ref), ref, dfn, atom)
+            # the same list objects once more (a caller that keeps its template lists): same answer, arguments untouched
+            res2 = quatfit.find_coordinates(len(ref), ref, dfn, atom)
+            worst = max(range(3), key=lambda k: abs(res2[k] - res[k]))
+            if abs(res2[worst] - res[worst]) > 1e-9:
+                res = res2
             obs = [int(round((res[k] - t[k]) * 1e6)) for k in range(3)]
-            if any(abs(v) > 2_000_000_00 for v in obs):
+            if any(abs(v) > 2_000_000_00 for v in obs) or any(v != v for v in res):
                 obs = [0, 0, 999999999]
+            if (ref, dfn, atom) != keep:
+                obs = [0, 0, 999999998]       # the call changed its arguments
         except Exception as e:
             obs = [0, 0, 999999999]
         out.append(obs)
@@ -210,7 +219,7 @@ def run(ctx):
     for i, t in enumerate(types if not ctx.quick else types[ctx.seed % 2::2] + ["CYS", "LYS"]):
         seq = grid[:]
         rng.shuffle(seq)
-        tjobs.append({"res": t, "seed": ctx.seed + i, "angles": [170.0, -170.0, 175.0, -175.0] + seq[:(6 if ctx.quick else 12)],
+        tjobs.append({"res": t, "seed": ctx.seed + i, "angles": [170.0, -170.0, 175.0, -175.0, 179.9, 60.0, -0.15, -120.0, 0.2, 90.0, -179.8, 33.0] + seq[:(6 if ctx.quick else 12)],
                       "tet": [120.0, -120.0, 37.5, 240.0]})
     for tr in core.pmap(_turn_job, tjobs, chunksize=1):
         for o in tr:
